@@ -701,15 +701,17 @@ theorem sameStatic_sx_deactivateVariable (s : McSx Rat) (v : Nat) : SameStatic s
   · exact sameStatic_deactivateVariable s.b v
 
 /-- one `deactivateVariable` of the variable at position `p` of the `avar` list of slot `e` -/
-theorem sx_deact_slot (s : McSx Rat) (h : SxInv s) (e p : Nat) (he : e < s.b.n) (hp : p < (s.b.ex e).active) :
-    SxInv (s.deactivateVariable ((s.b.ex e).avar p)) ∧
+theorem sx_deact_slot (X : McSx Rat → Prop)
+    (hX : ∀ t v, SxInv t → v < t.b.activeVar → X t → X (t.deactivateVariable v))
+    (s : McSx Rat) (h : SxInv s) (hx : X s) (e p : Nat) (he : e < s.b.n) (hp : p < (s.b.ex e).active) :
+    (SxInv (s.deactivateVariable ((s.b.ex e).avar p)) ∧ X (s.deactivateVariable ((s.b.ex e).avar p))) ∧
     (1 < (s.b.ex e).active →
       (s.deactivateVariable ((s.b.ex e).avar p)).b = s.b.deactivateVariable ((s.b.ex e).avar p) ∧
       ((s.deactivateVariable ((s.b.ex e).avar p)).b.ex e).active = (s.b.ex e).active - 1) := by
   have hpP : p < s.b.P := lt_of_lt_of_le hp (h.tables.active_le e he)
   have hv : (s.b.ex e).avar p < s.b.activeVar := (h.tables.active_iff e he p hpP).mp hp
   have hi : (s.b.vars ((s.b.ex e).avar p)).i = e := h.tables.avar_i e he p hpP
-  refine ⟨sxInv_deactivateVariable s h _ hv, fun h1 => ?_⟩
+  refine ⟨⟨sxInv_deactivateVariable s h _ hv, hX s _ h hv hx⟩, fun h1 => ?_⟩
   have hact := deactVar_active_self s.b ((s.b.ex e).avar p)
   rw [hi] at hact
   have hne : ¬ (((s.b.deactivateVariable ((s.b.ex e).avar p)).ex e).active == 0) = true := by
@@ -721,27 +723,29 @@ theorem sx_deact_slot (s : McSx Rat) (h : SxInv s) (e p : Nat) (he : e < s.b.n) 
   exact ⟨hb, by rw [hb, hact]⟩
 
 /-- case 2 of `shrink`: all active variables of the slot are deactivated, last first -/
-theorem sxInv_shrinkCase2 (s : McSx Rat) (h : SxInv s) (e : Nat) (he : e < s.b.n) :
-    SxInv (s.shrinkCase2 e) ∧ (s.shrinkCase2 e).b.n = s.b.n := by
+theorem sxInv_shrinkCase2_gen (X : McSx Rat → Prop)
+    (hX : ∀ t v, SxInv t → v < t.b.activeVar → X t → X (t.deactivateVariable v))
+    (s : McSx Rat) (h : SxInv s) (hx : X s) (e : Nat) (he : e < s.b.n) :
+    (SxInv (s.shrinkCase2 e) ∧ X (s.shrinkCase2 e)) ∧ (s.shrinkCase2 e).b.n = s.b.n := by
   unfold McSx.shrinkCase2
   dsimp only
   generalize hpc : (s.b.ex e).active = pc
   suffices H : ∀ k, k ≤ pc →
       let t := (List.range k).foldl (fun (s : McSx Rat) k => s.deactivateVariable ((s.b.ex e).avar (pc - 1 - k))) s
-      SxInv t ∧ t.b.n = s.b.n ∧ (k < pc → pc ≤ (t.b.ex e).active + k) from
+      (SxInv t ∧ X t) ∧ t.b.n = s.b.n ∧ (k < pc → pc ≤ (t.b.ex e).active + k) from
     ⟨(H pc (le_refl _)).1, (H pc (le_refl _)).2.1⟩
   intro k
   induction k with
-  | zero => intro _; exact ⟨h, rfl, fun _ => by simp [hpc]⟩
+  | zero => intro _; exact ⟨⟨h, hx⟩, rfl, fun _ => by simp [hpc]⟩
   | succ k ih =>
     intro hk
-    obtain ⟨h1, hn1, h2⟩ := ih (by omega)
+    obtain ⟨⟨h1, hx1⟩, hn1, h2⟩ := ih (by omega)
     have h2' := h2 (by omega)
     rw [List.range_succ, List.foldl_append]
     simp only [List.foldl_cons, List.foldl_nil]
     set t := (List.range k).foldl (fun (s : McSx Rat) k => s.deactivateVariable ((s.b.ex e).avar (pc - 1 - k))) s
     have het : e < t.b.n := by rw [hn1]; exact he
-    obtain ⟨r1, r2⟩ := sx_deact_slot t h1 e (pc - 1 - k) het (by omega)
+    obtain ⟨r1, r2⟩ := sx_deact_slot X hX t h1 hx1 e (pc - 1 - k) het (by omega)
     refine ⟨r1, ?_, fun hk1 => ?_⟩
     · rw [(sameStatic_sx_deactivateVariable t _).2.2.1, hn1]
     · obtain ⟨_, hact⟩ := r2 (by omega)
@@ -810,8 +814,11 @@ theorem deactVar_grad_slot (b : McBox Rat) (ht : TablesInv b) (v : Nat) (hv : v 
     rw [swp_eq_comp b.grad, hav]
 
 /-- case 1 of `shrink` -/
-theorem sxInv_shrinkCase1 (s : McSx Rat) (h : SxInv s) (e : Nat) (he : e < s.b.n) (down : Rat) :
-    SxInv (s.shrinkCase1 e (s.simplexMVP e).1 down) ∧ (s.shrinkCase1 e (s.simplexMVP e).1 down).b.n = s.b.n := by
+theorem sxInv_shrinkCase1_gen (X : McSx Rat → Prop)
+    (hX : ∀ t v, SxInv t → v < t.b.activeVar → X t → X (t.deactivateVariable v))
+    (s : McSx Rat) (h : SxInv s) (hx : X s) (e : Nat) (he : e < s.b.n) (down : Rat) :
+    (SxInv (s.shrinkCase1 e (s.simplexMVP e).1 down) ∧ X (s.shrinkCase1 e (s.simplexMVP e).1 down)) ∧
+      (s.shrinkCase1 e (s.simplexMVP e).1 down).b.n = s.b.n := by
   unfold McSx.shrinkCase1
   dsimp only
   generalize hup : (s.simplexMVP e).1 = up
@@ -830,22 +837,22 @@ theorem sxInv_shrinkCase1 (s : McSx Rat) (h : SxInv s) (e : Nat) (he : e < s.b.n
           let q0 := (s.b.ex e).active
           ((List.range (q0 + 1)).foldl (fun (s : McSx Rat) j => s.deactivateVariable ((s.b.ex e).avar (q0 - j))) s, true)
         else (s, false)) (s, false)
-      SxInv t.1 ∧ t.2 = false ∧ t.1.b.n = s.b.n ∧
+      (SxInv t.1 ∧ X t.1) ∧ t.2 = false ∧ t.1.b.n = s.b.n ∧
         (k < pc → pc ≤ (t.1.b.ex e).active + k ∧
           ∀ b < (t.1.b.ex e).active, t.1.b.grad ((t.1.b.ex e).avar b) ≤ up) from
     ⟨(H pc (le_refl _)).1, (H pc (le_refl _)).2.2.1⟩
   intro k
   induction k with
-  | zero => intro _; exact ⟨h, rfl, rfl, fun _ => ⟨by simp [hpc], hpc ▸ hJ0⟩⟩
+  | zero => intro _; exact ⟨⟨h, hx⟩, rfl, rfl, fun _ => ⟨by simp [hpc], hpc ▸ hJ0⟩⟩
   | succ k ih =>
     intro hk
-    obtain ⟨h1, hf, hn1, h2⟩ := ih (by omega)
+    obtain ⟨⟨h1, hx1⟩, hf, hn1, h2⟩ := ih (by omega)
     obtain ⟨h2a, h2b⟩ := h2 (by omega)
     rw [List.range_succ, List.foldl_append]
     simp only [List.foldl_cons, List.foldl_nil]
     generalize (List.range k).foldl _ (s, false) = t at *
     obtain ⟨t1, t2⟩ := t
-    simp only at h1 hf hn1 h2a h2b
+    simp only at h1 hx1 hf hn1 h2a h2b
     subst hf
     simp only [Bool.false_eq_true, if_false]
     have het : e < t1.b.n := by rw [hn1]; exact he
@@ -853,7 +860,7 @@ theorem sxInv_shrinkCase1 (s : McSx Rat) (h : SxInv s) (e : Nat) (he : e < s.b.n
     have hg := h2b _ hp
     split_ifs with c1 c2
     · -- the variable is deactivated
-      obtain ⟨r1, r2⟩ := sx_deact_slot t1 h1 e (pc - 1 - k) het hp
+      obtain ⟨r1, r2⟩ := sx_deact_slot X hX t1 h1 hx1 e (pc - 1 - k) het hp
       refine ⟨r1, rfl, by rw [(sameStatic_sx_deactivateVariable t1 _).2.2.1, hn1], fun hk1 => ?_⟩
       obtain ⟨hb, hact⟩ := r2 (by omega)
       refine ⟨by rw [hact]; omega, ?_⟩
@@ -868,7 +875,7 @@ theorem sxInv_shrinkCase1 (s : McSx Rat) (h : SxInv s) (e : Nat) (he : e < s.b.n
       have := c2.2
       rw [z0] at this
       linarith
-    · exact ⟨h1, rfl, hn1, fun hk1 => ⟨by omega, h2b⟩⟩
+    · exact ⟨⟨h1, hx1⟩, rfl, hn1, fun hk1 => ⟨by omega, h2b⟩⟩
 
 
 /-- the example loop of `shrink` -/
@@ -881,14 +888,23 @@ def shrinkExStep (E0 : Nat) (s : McSx Rat) (k : Nat) : McSx Rat :=
   else if s.vsum e == (0.0 : Rat) ∧ up < (0.0 : Rat) then s.shrinkCase2 e
   else s
 
-theorem sxInv_shrinkExStep (E0 : Nat) (s : McSx Rat) (h : SxInv s) (k : Nat) (hE : E0 ≤ s.b.n) (hk : k < E0) :
-    SxInv (shrinkExStep E0 s k) ∧ (shrinkExStep E0 s k).b.n = s.b.n := by
+theorem sxInv_shrinkExStep (X : McSx Rat → Prop)
+    (hX : ∀ t v, SxInv t → v < t.b.activeVar → X t → X (t.deactivateVariable v))
+    (E0 : Nat) (s : McSx Rat) (h : SxInv s) (hx : X s) (k : Nat) (hE : E0 ≤ s.b.n) (hk : k < E0) :
+    (SxInv (shrinkExStep E0 s k) ∧ X (shrinkExStep E0 s k)) ∧ (shrinkExStep E0 s k).b.n = s.b.n := by
   unfold shrinkExStep
   dsimp only
   split_ifs
-  · exact sxInv_shrinkCase1 s h _ (by omega) _
-  · exact sxInv_shrinkCase2 s h _ (by omega)
-  · exact ⟨h, rfl⟩
+  · exact sxInv_shrinkCase1_gen X hX s h hx _ (by omega) _
+  · exact sxInv_shrinkCase2_gen X hX s h hx _ (by omega)
+  · exact ⟨⟨h, hx⟩, rfl⟩
+
+theorem sxInv_shrinkCase1 (s : McSx Rat) (h : SxInv s) (e : Nat) (he : e < s.b.n) (down : Rat) :
+    SxInv (s.shrinkCase1 e (s.simplexMVP e).1 down) :=
+  (sxInv_shrinkCase1_gen (fun _ => True) (fun _ _ _ _ _ => trivial) s h trivial e he down).1.1
+
+theorem sxInv_shrinkCase2 (s : McSx Rat) (h : SxInv s) (e : Nat) (he : e < s.b.n) : SxInv (s.shrinkCase2 e) :=
+  (sxInv_shrinkCase2_gen (fun _ => True) (fun _ _ _ _ _ => trivial) s h trivial e he).1.1
 
 /-- head of `shrink`: the optional `unshrink` -/
 def shrinkHeadX (s : McSx Rat) (eps : Rat) : McSx Rat :=
@@ -912,25 +928,40 @@ theorem shrinkX_eq (s : McSx Rat) (eps : Rat) :
   · rw [if_neg hu, if_neg hu]
     rfl
 
-theorem sxInv_shrink (s : McSx Rat) (h : SxInv s) (eps : Rat) : SxInv (s.shrink eps).1 := by
+/-- `shrink` preserves the invariants, together with any property `X` of the state that `unshrink`, the flag and
+every valid `deactivateVariable` preserve -/
+theorem sxInv_shrink_gen (X : McSx Rat → Prop)
+    (hX : ∀ t v, SxInv t → v < t.b.activeVar → X t → X (t.deactivateVariable v))
+    (hXu : ∀ t, SxInv t → X t → X { t.unshrink with b := { t.unshrink.b with unshrinked := true } })
+    (s : McSx Rat) (h : SxInv s) (hx : X s) (eps : Rat) : SxInv (s.shrink eps).1 ∧ X (s.shrink eps).1 := by
   rw [shrinkX_eq]
   split_ifs
-  · exact h
+  · exact ⟨h, hx⟩
   · have h0 := sxInv_shrinkHeadX s h eps
-    generalize shrinkHeadX s eps = t at h0
+    have hx0 : X (shrinkHeadX s eps) := by
+      unfold shrinkHeadX
+      split_ifs
+      · exact hXu s h hx
+      · exact hx
+      · exact hx
+    generalize shrinkHeadX s eps = t at h0 hx0
     have hE : t.b.activeEx ≤ t.b.n := h0.tables.aE_le
     generalize t.b.activeEx = E0 at hE
-    suffices H : ∀ k, k ≤ E0 → SxInv ((List.range k).foldl (shrinkExStep E0) t) ∧
+    suffices H : ∀ k, k ≤ E0 → (SxInv ((List.range k).foldl (shrinkExStep E0) t) ∧
+        X ((List.range k).foldl (shrinkExStep E0) t)) ∧
         ((List.range k).foldl (shrinkExStep E0) t).b.n = t.b.n from (H E0 (le_refl _)).1
     intro k
     induction k with
-    | zero => intro _; exact ⟨h0, rfl⟩
+    | zero => intro _; exact ⟨⟨h0, hx0⟩, rfl⟩
     | succ k ih =>
       intro hk
-      obtain ⟨h1, hn1⟩ := ih (by omega)
+      obtain ⟨⟨h1, hx1⟩, hn1⟩ := ih (by omega)
       rw [List.range_succ, List.foldl_append, List.foldl_cons, List.foldl_nil]
-      obtain ⟨r1, r2⟩ := sxInv_shrinkExStep E0 _ h1 k (by rw [hn1]; exact hE) (by omega)
+      obtain ⟨r1, r2⟩ := sxInv_shrinkExStep X hX E0 _ h1 hx1 k (by rw [hn1]; exact hE) (by omega)
       exact ⟨r1, by rw [r2, hn1]⟩
+
+theorem sxInv_shrink (s : McSx Rat) (h : SxInv s) (eps : Rat) : SxInv (s.shrink eps).1 :=
+  (sxInv_shrink_gen (fun _ => True) (fun _ _ _ _ _ => trivial) (fun _ _ _ => trivial) s h trivial eps).1
 
 /-! ### `QpSolver<QpMcSimplexDecomp>::solve` -/
 
